@@ -2,6 +2,7 @@ package vsched
 
 import (
 	"fmt"
+	"runtime"
 	"sync/atomic"
 	"time"
 )
@@ -198,4 +199,18 @@ func prefixHash(p []int) uint64 {
 		h = mix(h, uint64(c)+1)
 	}
 	return h
+}
+
+// Abort ends the current execution immediately with the given outcome kind
+// (models a crash of the process under test at this scheduling instant); the
+// calling goroutine does not return. Outside an exploration it is a no-op.
+func Abort(kind string) {
+	x := theExec.Load()
+	if x == nil {
+		return
+	}
+	x.mu.Lock()
+	x.finish(kind, "")
+	x.mu.Unlock()
+	runtime.Goexit()
 }
